@@ -21,6 +21,8 @@ from collections import namedtuple
 from .astutil import norm, dotted, enclosing_stmt
 from . import tables as T
 
+STEP_BUDGET = 1_000_000   # the reference tree needs about 27 000 steps
+
 Origin = namedtuple("Origin", "kind detail ops")
 
 COPY_FUNCS = {
@@ -67,6 +69,7 @@ class ValueFlow:
         self._rd = {}
         self._memo = {}
         self._cuts = 0
+        self._steps = 0
         self._sites = {}
         for evs in ctx.cg.events.values():
             for ev in evs:
@@ -182,6 +185,12 @@ class ValueFlow:
 
     def _o2(self, e, f, at, depth, stack):
         d = depth + 1
+        self._steps += 1
+        if self._steps > STEP_BUDGET:
+            # results reached through a cycle are not memoised; on some shapes the walk
+            # blows up - stop with an honest "cannot decide" instead of running for hours
+            from .loader import AnalysisError
+            raise AnalysisError(f"value-flow analysis exceeded its step budget ({STEP_BUDGET}) while resolving `{norm(e)[:40] if isinstance(e, ast.AST) else e}` in {f.qual}")
         if isinstance(e, ast.Name):
             return self._name(e.id, f, at, d, stack)
         if isinstance(e, ast.Constant):
